@@ -826,6 +826,9 @@ fn parse_json_filter(input: &[u8], output: &mut [u8]) -> Result<(usize, usize), 
 
             eat_colon_with_whitespace(input, &mut inpos)?;
             let limit = read_u64(input, &mut inpos)?;
+            if limit > u32::MAX as u64 {
+                return Err(InnerError::JsonBadFilter("Filter has limit too large", inpos).into());
+            }
             let limit: u32 = limit as u32;
             put(output, LIMIT_OFFSET, limit.to_ne_bytes().as_slice())?;
 
